@@ -1181,6 +1181,23 @@ func runPhase1(r *vcore.Run, j *p1Job, idx int) {
 	if !p.build() || !p.positives() {
 		return
 	}
+	// history: the commons a verified transcript yielded must not change when the coordinator goes
+	// on reading other contributions into the objects it already holds (here: a contribution of
+	// the parallel chain, which does not extend this transcript)
+	if o.P1VerifyThenReuse != nil {
+		var before, after []byte
+		err, pan := safe(func() (e error) { before, after, e = o.P1VerifyThenReuse(j.N, beacon1, p.A, p.B[len(p.B)-1]); return })
+		r.Eval(label+"|p1|commons-after-object-reuse", true)
+		switch {
+		case err != nil || pan != "":
+			r.Inconclusive("p1-verify-then-reuse:" + fmt.Sprint(err, pan))
+		case !bytes.Equal(before, after):
+			r.Violation("verified-commons-overwritten-by-later-read/p1", "the commons returned by VerifyPhase1 changed when the last contribution object was reused to read a contribution of another chain: keys would be derived from parameters this transcript never verified",
+				p.replay(map[string]any{"chain": hxs(p.A), "other": hx(p.B[len(p.B)-1])}))
+		default:
+			r.Count("p1.commons-unchanged-after-object-reuse", 1)
+		}
+	}
 	for k := 0; k <= chainLen; k++ {
 		if j.commons[k], err = o.P1Verify(j.N, beacon1, p.A[:k]); err != nil {
 			return
